@@ -150,6 +150,12 @@ func (r *recallWantlist) removeType(c cid.Cid, wtype pb.Message_Wantlist_WantTyp
 // Returns true if the want was marked as sent. Returns false if the want wasn't
 // pending.
 func (r *recallWantlist) markSent(e bswl.Entry) bool {
+	// The entry was read from the pending list before the message was built.
+	// In the interim the want may have been cancelled and added again: only
+	// the very same want can be marked as sent.
+	if pe, ok := r.pending.Get(e.Cid); !ok || pe != e {
+		return false
+	}
 	if !r.pending.RemoveType(e.Cid, e.WantType) {
 		return false
 	}
